@@ -30,7 +30,7 @@ import (
 func init() {
 	core.RegisterMeta("C24", core.Meta{
 		Rule: "seed-determined (client config, server config) pairs over version ranges TLS1.0-1.3 x ordered suite subsets of the implemented table (+DHE leg with ForceSuites) x 1-2 server keys (RSA-2048, ECDSA P-256/384/521, Ed25519) x curve lists x ALPN lists x PreferServerCipherSuites x tickets on/off, " +
-			"peers zcrypto<->zcrypto, zcrypto->Go crypto/tls, Go->zcrypto; second connection for resumption; man-in-the-middle version rewrite leg. " +
+			"peers zcrypto<->zcrypto, zcrypto->Go crypto/tls, Go->zcrypto; second connection for resumption, under the same configurations or (45 % of the ticket-enabled pairs) under changed ones that keep the ticket key and the client cache (server/client suite list regenerated or stripped of the negotiated suite, version range or curve list changed) and are judged by the same oracle on the current configurations; man-in-the-middle version rewrite leg. " +
 			"non-trivial = a connection whose handshake completed on both sides and was checked against the negotiation model; distinct by hash of the canonical pair description + connection index",
 		MinNontrivial:         1900,
 		MinNontrivialThorough: 60000,
@@ -68,11 +68,23 @@ type c24Case struct {
 	Force        bool     `json:"force_suites"`
 	Seed         uint64   `json:"seed"`
 	MITM         uint16   `json:"mitm_target"`
+	// Changes applied to the configurations of the second connection (same ticket keys, same client cache).
+	// Entries: s_drop_negotiated, s_regen, s_versions, s_curves, c_drop_negotiated, c_regen, c_versions.
+	KeySeed  uint64   `json:"ticket_key_seed"`
+	Conn2    []string `json:"conn2_changes,omitempty"`
+	SSuites2 []uint16 `json:"s_suites2,omitempty"`
+	CSuites2 []uint16 `json:"c_suites2,omitempty"`
+	SMin2    uint16   `json:"smin2,omitempty"`
+	SMax2    uint16   `json:"smax2,omitempty"`
+	CMin2    uint16   `json:"cmin2,omitempty"`
+	CMax2    uint16   `json:"cmax2,omitempty"`
+	SCurves2 []uint16 `json:"s_curves2,omitempty"`
 }
 
 func (k c24Case) canon() string {
 	k.ID = ""
 	k.Seed = 0
+	k.KeySeed = 0
 	b, _ := json.Marshal(k)
 	return string(b)
 }
@@ -205,6 +217,7 @@ func genALPN(r *rand.Rand) []string {
 func genC24(r *rand.Rand, id string) c24Case {
 	loadSuites()
 	k := c24Case{ID: id, Seed: r.Uint64() | 1}
+	k.KeySeed = k.Seed
 	switch x := r.IntN(100); {
 	case x < 58:
 		k.Peer = "zz"
@@ -308,6 +321,24 @@ func genC24(r *rand.Rand, id string) c24Case {
 		k.SSuites = append(randSubset16(r, dheSuites, 1, 4), randSubset16(r, baseSuites, 0, 3)...)
 		r.Shuffle(len(k.SSuites), func(i, j int) { k.SSuites[i], k.SSuites[j] = k.SSuites[j], k.SSuites[i] })
 	}
+	// second connection under changed configurations (ticket keys and client cache are kept)
+	if !k.Force && k.ClientCache && !k.CNoTickets && !k.SNoTickets && r.IntN(100) < 45 {
+		sOpts := []string{"s_drop_negotiated", "s_drop_negotiated", "s_regen", "s_versions", "s_curves"}
+		cOpts := []string{"c_drop_negotiated", "c_regen", "c_versions"}
+		switch r.IntN(3) {
+		case 0:
+			k.Conn2 = []string{sOpts[r.IntN(len(sOpts))]}
+		case 1:
+			k.Conn2 = []string{cOpts[r.IntN(len(cOpts))]}
+		default:
+			k.Conn2 = []string{sOpts[r.IntN(len(sOpts))], cOpts[r.IntN(len(cOpts))]}
+		}
+		k.SSuites2 = genSuites(r, k.Certs, k.Peer == "zg")
+		k.CSuites2 = genSuites(r, k.Certs, k.Peer == "gz")
+		k.SMin2, k.SMax2 = randRange(r)
+		k.CMin2, k.CMax2 = randRange(r)
+		k.SCurves2 = randSubset16(r, allCurves, 1, 4)
+	}
 	// man-in-the-middle leg
 	if k.Peer != "gz" && r.IntN(100) < 25 {
 		hv := k.CMax
@@ -407,6 +438,7 @@ func (k c24Case) build(withCache bool) *c24Configs {
 		g.NextProtos = k.SALPN
 		g.SessionTicketsDisabled = k.SNoTickets
 		g.PreferServerCipherSuites = k.PreferServer
+		g.SetSessionTicketKeys([][32]byte{k.ticketKey()})
 		cf.gs = g
 	} else {
 		z := tlspair.BaseServer(k.Seed+7, k.Certs...)
@@ -416,9 +448,67 @@ func (k c24Case) build(withCache bool) *c24Configs {
 		z.NextProtos = k.SALPN
 		z.SessionTicketsDisabled = k.SNoTickets
 		z.PreferServerCipherSuites = k.PreferServer
+		z.SetSessionTicketKeys([][32]byte{k.ticketKey()})
 		cf.zs = z
 	}
 	return cf
+}
+
+// ticketKey is the explicit session-ticket key of every server configuration of the case
+// (so that a changed configuration for the second connection still opens the first one's tickets).
+func (k c24Case) ticketKey() [32]byte {
+	var key [32]byte
+	tlspair.NewDetRand(k.KeySeed ^ 0x7e57).Read(key[:])
+	return key
+}
+
+// changed derives the second connection's case from the first connection's outcome.
+func (k c24Case) changed(negotiated uint16) c24Case {
+	k2 := k
+	k2.Seed = k.Seed + 1000
+	drop := func(list []uint16, def []uint16) []uint16 {
+		if list == nil {
+			list = def
+		}
+		out := []uint16{}
+		for _, id := range list {
+			if id != negotiated {
+				out = append(out, id)
+			}
+		}
+		legacy := 0
+		for _, id := range out {
+			if !is13Suite(id) {
+				legacy++
+			}
+		}
+		if legacy == 0 {
+			return list // nothing sensible left: keep
+		}
+		return out
+	}
+	for _, ch := range k.Conn2 {
+		switch ch {
+		case "s_drop_negotiated":
+			k2.SSuites = drop(k.SSuites, defaultServerLegacy())
+		case "s_regen":
+			k2.SSuites = k.SSuites2
+		case "s_versions":
+			k2.SMin, k2.SMax = k.SMin2, k.SMax2
+		case "s_curves":
+			k2.SCurves = k.SCurves2
+		case "c_drop_negotiated":
+			k2.CSuites = drop(k.CSuites, defaultServerLegacy())
+		case "c_regen":
+			k2.CSuites = k.CSuites2
+		case "c_versions":
+			k2.CMin, k2.CMax = k.CMin2, k.CMax2
+		}
+	}
+	if k.Peer == "zg" && k2.SSuites == nil {
+		k2.SSuites = k.SSuites
+	}
+	return k2
 }
 
 func (cf *c24Configs) run(k c24Case, opt tlspair.Options) *tlspair.Result {
@@ -879,7 +969,7 @@ func (k c24Case) checkConn(c *core.Ctx, r *tlspair.Result, conn string, expectRe
 	if m.Class == "compatible" && conn != "mitm" {
 		if !has16(m.Mutual, suite) {
 			c.Violation(fmt.Sprintf("suite_outside_mutual_usable_set:%s:%s", vclass, k.Peer), fmt.Sprintf("negotiated %04x, mutual usable %s", suite, hexList(m.Mutual)), id, mk(""))
-		} else if m.Exact {
+		} else if m.Exact && !ss.Resumed {
 			c.Count("preference_rule_exact_checked", 1)
 			if len(m.Pred) != 1 || m.Pred[0] != suite {
 				who := "client"
@@ -904,6 +994,26 @@ func (k c24Case) checkConn(c *core.Ctx, r *tlspair.Result, conn string, expectRe
 	if cs.Resumed != ss.Resumed {
 		c.Violation("resumption_disagreement:"+k.Peer, fmt.Sprintf("client %v server %v", cs.Resumed, ss.Resumed), id, mk(""))
 	}
+	if expectResume == -2 && first != nil {
+		// changed configurations: resuming is optional, unless the ticket's version (and, up to TLS 1.2, its
+		// suite) is no longer enabled on both sides — then the connection must not resume
+		expectResume = -1
+		if first.Version != m.V {
+			expectResume = 0
+		} else if first.Version != v13 {
+			if !has16(ch.Suites, first.Suite) || (k.Peer != "zg" && !has16(m.ServerLegacy, first.Suite)) || (k.Peer == "zg" && !has16(k.SSuites, first.Suite)) {
+				expectResume = 0
+			}
+		}
+		if expectResume == 0 {
+			c.Count("conn2_changed_must_not_resume", 1)
+		} else {
+			c.Count("conn2_changed_may_resume", 1)
+			if ss.Resumed {
+				c.Count("conn2_changed_resumed", 1)
+			}
+		}
+	}
 	switch expectResume {
 	case 0:
 		if cs.Resumed || ss.Resumed {
@@ -914,7 +1024,7 @@ func (k c24Case) checkConn(c *core.Ctx, r *tlspair.Result, conn string, expectRe
 			c.Violation(fmt.Sprintf("did_not_resume:%s:%s", k.Peer, vname(ss.Version)), fmt.Sprintf("tickets enabled on both sides, same configuration, client %v server %v", cs.Resumed, ss.Resumed), id, mk(""))
 		}
 	}
-	if first != nil && ss.Resumed && (ss.Version != first.Version || ss.Suite != first.Suite) {
+	if first != nil && ss.Resumed && (ss.Version != first.Version || (ss.Suite != first.Suite && (ss.Version != v13 || len(k.Conn2) == 0))) {
 		c.Violation("resumed_with_different_parameters:"+k.Peer, fmt.Sprintf("first %s/%04x resumed %s/%04x", vname(first.Version), first.Suite, vname(ss.Version), ss.Suite), id, mk(""))
 	}
 	if ss.Resumed {
@@ -957,18 +1067,32 @@ func (k c24Case) runCase(c *core.Ctx) {
 			r1.Close()
 		} else {
 			r1.Close()
-			// second connection: same configurations, fresh transport
-			r2 := cf.run(k, tlspair.Options{})
+			// second connection: fresh transport; same configurations, or changed ones that keep the
+			// ticket keys and the client's session cache
+			k2, cf2 := k, cf
 			expect := -1
-			if k.Peer == "zz" {
+			if len(k.Conn2) > 0 {
+				k2 = k.changed(ss1.Suite)
+				cf2 = k2.build(true)
+				if cf2.zc != nil && cf.zcache != nil {
+					cf2.zcache = cf.zcache
+					cf2.zc.ClientSessionCache = cf.zcache
+				}
+				if cf2.gc != nil && cf.gc != nil {
+					cf2.gc.ClientSessionCache = cf.gc.ClientSessionCache
+				}
+				expect = -2 // decided by the oracle from the current configurations
+				c.Count("conn2_changed:"+strings.Join(k.Conn2, "+"), 1)
+			} else if k.Peer == "zz" {
 				if k.ClientCache && !k.CNoTickets && !k.SNoTickets {
 					expect = 1
 				} else {
 					expect = 0
 				}
 			}
+			r2 := cf2.run(k2, tlspair.Options{})
 			first := ss1
-			cs2, ss2, _ := k.checkConn(c, r2, "2", expect, &first)
+			cs2, ss2, _ := k2.checkConn(c, r2, "2", expect, &first)
 			if cs2.OK && ss2.OK {
 				if err := r2.PingPong([]byte("ping-2"), []byte("pong-2")); err != nil {
 					c.Violation("application_data_after_handshake_failed:"+k.Peer, err.Error(), k.ID+"/2", c24Obs{Case: k, Conn: "2", Client: cs2.String(), Server: ss2.String()})
